@@ -163,6 +163,14 @@ fn record<T: Serialize>(x: &T) -> (Vec<String>, bool) {
 enum Tok {
     I8(i8),
     U32(u32),
+    /// the same integers as a self-describing format hands them over (JSON-like: everything is i64 / u64),
+    /// and the other primitive widths
+    I16(i16),
+    I32(i32),
+    I64(i64),
+    U8(u8),
+    U16(u16),
+    U64(u64),
     /// elements, announced size hint
     Seq(Vec<Tok>, Option<usize>),
 }
@@ -194,6 +202,12 @@ impl<'de, 'a> de::Deserializer<'de> for De<'a> {
         match self.tok {
             Tok::I8(v) => visitor.visit_i8(*v),
             Tok::U32(v) => visitor.visit_u32(*v),
+            Tok::I16(v) => visitor.visit_i16(*v),
+            Tok::I32(v) => visitor.visit_i32(*v),
+            Tok::I64(v) => visitor.visit_i64(*v),
+            Tok::U8(v) => visitor.visit_u8(*v),
+            Tok::U16(v) => visitor.visit_u16(*v),
+            Tok::U64(v) => visitor.visit_u64(*v),
             Tok::Seq(items, hint) => visitor.visit_seq(Access { items: items.iter(), hint: *hint }),
         }
     }
@@ -214,11 +228,39 @@ fn parse_hint(s: &str, n: usize) -> Option<usize> {
         x => Some(x.parse().unwrap()),
     }
 }
-fn parse_words(t: &str) -> Vec<u32> {
+
+/// `<type>:<value>` -> an integer token of that carrier type (plain number = i8)
+fn int_tok(s: &str) -> Tok {
+    match s.split_once(':') {
+        None => Tok::I8(pnum(s)),
+        Some(("i8", v)) => Tok::I8(pnum(v)),
+        Some(("i16", v)) => Tok::I16(pnum(v)),
+        Some(("i32", v)) => Tok::I32(pnum(v)),
+        Some(("i64", v)) => Tok::I64(pnum(v)),
+        Some(("u8", v)) => Tok::U8(pnum(v)),
+        Some(("u16", v)) => Tok::U16(pnum(v)),
+        Some(("u32", v)) => Tok::U32(pnum(v)),
+        Some((_, v)) => Tok::U64(pnum(v)),
+    }
+}
+/// `w<hex,..>` = u32 tokens; `W<hex,..>` = the same digits handed over as u64 tokens (values above
+/// u32::MAX are possible and must be rejected)
+fn word_toks(t: &str) -> Vec<Tok> {
     if t.len() <= 1 {
         return vec![];
     }
-    t[1..].split(',').map(|x| u32::from_str_radix(x, 16).unwrap()).collect()
+    let wide = t.starts_with('W');
+    t[1..]
+        .split(',')
+        .map(|x| {
+            let v = u64::from_str_radix(x, 16).unwrap();
+            if wide {
+                Tok::U64(v)
+            } else {
+                Tok::U32(v as u32)
+            }
+        })
+        .collect()
 }
 
 struct DR<T>(Result<T, SErr>);
@@ -270,15 +312,34 @@ pub fn run(op: &str, t: &[&str], v: &[Val], out: &mut Out) -> bool {
         // de I <signbyte> <hint> w<words>
         "de" => {
             if t[1] == "U" {
-                let w = parse_words(t[3]);
-                let tok = Tok::Seq(w.iter().map(|x| Tok::U32(*x)).collect(), parse_hint(t[2], w.len()));
+                let w = word_toks(t[3]);
+                let n = w.len();
+                let tok = Tok::Seq(w, parse_hint(t[2], n));
                 out.call(|| DR(BigUint::deserialize(De { tok: &tok, _p: () })));
             } else {
-                let sb: i8 = pnum(t[2]);
-                let w = parse_words(t[4]);
-                let seq = Tok::Seq(w.iter().map(|x| Tok::U32(*x)).collect(), parse_hint(t[3], w.len()));
-                let tok = Tok::Seq(vec![Tok::I8(sb), seq], Some(2));
+                let w = word_toks(t[4]);
+                let n = w.len();
+                let seq = Tok::Seq(w, parse_hint(t[3], n));
+                let tok = Tok::Seq(vec![int_tok(t[2]), seq], Some(2));
                 out.call(|| DR(BigInt::deserialize(De { tok: &tok, _p: () })));
+            }
+        }
+        // dein U <place> <hint> w<words>          : Deserialize::deserialize_in_place over an existing value
+        // dein I <place> <sign> <hint> w<words>
+        "dein" => {
+            if t[1] == "U" {
+                let w = word_toks(t[4]);
+                let n = w.len();
+                let tok = Tok::Seq(w, parse_hint(t[3], n));
+                let mut place = v[2].u().clone();
+                out.call(|| DR(BigUint::deserialize_in_place(De { tok: &tok, _p: () }, &mut place).map(|_| place.clone())));
+            } else {
+                let w = word_toks(t[5]);
+                let n = w.len();
+                let seq = Tok::Seq(w, parse_hint(t[4], n));
+                let tok = Tok::Seq(vec![int_tok(t[3]), seq], Some(2));
+                let mut place = v[2].i().clone();
+                out.call(|| DR(BigInt::deserialize_in_place(De { tok: &tok, _p: () }, &mut place).map(|_| place.clone())));
             }
         }
         // sersign <-1|0|1> : Sign serialised on its own
@@ -298,8 +359,7 @@ pub fn run(op: &str, t: &[&str], v: &[Val], out: &mut Out) -> bool {
         }
         // designs <byte> : Sign deserialised on its own from an i8
         "designs" => {
-            let b: i8 = pnum(t[1]);
-            let tok = Tok::I8(b);
+            let tok = int_tok(t[1]);
             out.call(|| DR(num_bigint::Sign::deserialize(De { tok: &tok, _p: () })));
         }
         _ => return false,
